@@ -75,6 +75,49 @@ def obligations(e, d, T, diag, sym):
             Obligation(f"{name}: step size rescaled by sqrt(tr old / tr new)", [e], ss_goal, signature=f"{name}:step", tactic="auto")]
 
 
+def fp32_positivity(chk, T, dense=False):
+    """float32: the tuned diagonal never falls below the regulariser (a variance computed in floats must not go negative)"""
+    from liesel.goose.mm import tune_inv_mm_diag, tune_inv_mm_full
+    from ..jx2smt import sym_array
+    F = z3.Float32()
+    tuner = tune_inv_mm_full if dense else tune_inv_mm_diag
+    d = 2 if dense else 1
+
+    def f(h):
+        out = tuner({"z": h})
+        return jnp.diag(out) if dense else out
+    name = f"tune_inv_mm_{'full' if dense else 'diag'} (float32, T={T}, d={d})"
+    h = sym_array(f"hfp{int(dense)}", (T, d) if dense else (T,), F)
+    enc = chk.note_enc(Enc(name, f, (jnp.zeros((T, d)) if dense else jnp.zeros((T,)),), (h,), mode="fp32"))
+    reg = z3.FPVal(float(np.float32(0.001)), F)
+    big = z3.FPVal(1e15, F)
+    hy = [z3.And(z3.Not(z3.fpIsNaN(x)), z3.fpLEQ(z3.fpAbs(x), big)) for x in cells(h)]
+
+    def replay(ob, model, rng):
+        from ..zeval import model_value
+        hv = np.array([model_value(model, x, np.float32(0)) for x in cells(h)], dtype=np.float32).reshape(h.shape)
+        out = np.asarray(f(jnp.asarray(hv)))
+        bad = bool(np.any(~(out >= np.float32(0.001))))
+        if not bad:
+            # XLA may associate the sums differently from the encoding: look at the float32 neighbourhood of the solver's history
+            # (a few ulps per entry, 4096 candidates, the real tuner evaluated on each) -- confirmation only
+            cand = np.repeat(hv[None], 4096, axis=0)
+            steps = rng.integers(-6, 7, size=cand.shape)
+            for k in range(6):
+                up = np.nextafter(cand, np.float32(np.inf), dtype=np.float32)
+                dn = np.nextafter(cand, np.float32(-np.inf), dtype=np.float32)
+                cand = np.where(steps > k, up, np.where(steps < -k, dn, cand)).astype(np.float32)
+            outs = np.asarray(jax.vmap(f)(jnp.asarray(cand)))
+            worst = np.nanmin(np.where(np.isnan(outs), -np.inf, outs).reshape(len(cand), -1), axis=1)
+            j = int(np.argmin(worst))
+            if not (worst[j] >= np.float32(0.001)):
+                hv, out, bad = cand[j], outs[j], True
+        return dict(reproduced=bad, inputs=dict(history=hv.tolist()), observed=dict(tuned_diagonal=out.tolist()),
+                    note="tuned inverse-mass diagonal below the regulariser 0.001 (negative or NaN variance)" if bad else "real tuner gives a diagonal >= 0.001 at the solver's history")
+    return [Obligation(f"{name}: every tuned diagonal entry >= the regulariser 0.001 for every finite float32 history (no cancellation to a negative variance)", [enc],
+                       lambda V: (hy, z3.And(*[z3.fpGEQ(c, reg) for c in cells(V.out)])), signature=f"fp32-positivity:{'full' if dense else 'diag'}", replay=replay, timeout_s=900)]
+
+
 def main():
     chk = Check("C12")
     T = 3 if chk.tier == "quick" else 4
@@ -97,12 +140,15 @@ def main():
         obs += obligations(*spec)
     for e in chk.encs:
         chk.validated_points += e.validate(chk.rng, npoints=1)
+    obs += fp32_positivity(chk, 3)
+    if chk.tier == "thorough":
+        obs += fp32_positivity(chk, 4) + fp32_positivity(chk, 3, dense=True)
     chk.run(obs)
     chk.functions += ["liesel.goose.nuts.NUTSKernel._tune_slow / tune", "liesel.goose.hmc.HMCKernel._tune_slow / tune",
                       "liesel.goose.mm.tune_inv_mm_diag", "liesel.goose.mm.tune_inv_mm_full", "liesel.goose.mm._history_to_matrix"]
     chk.bounds += [f"history of T = {T} recorded rows, all entries symbolic reals", "block shapes: scalar, vector (2,), matrix (2,1); total dimension <= 5",
                    "one slow-adaptation tuning call from an arbitrary old step size / inverse mass matrix (several epochs follow by repetition: the call has no other state)"]
     chk.enumerated += [f"{k}{list(ks)}{'diag' if d else 'dense'}" for k, ks, d in family] + ["nuts/hmc ['z','a'] diag via tune()"]
-    chk.assume("blackjax applies the metric to ravel_pytree(position) (its documented coordinate order)", "real arithmetic: float32 rounding / cancellation is outside the claim",
+    chk.assume("blackjax applies the metric to ravel_pytree(position) (its documented coordinate order)", "alignment / (co)variance identities in real arithmetic; float32 only for the positivity obligation (|history| <= 1e15, no NaN)",
                "regulariser is float32(0.001) on the diagonal", "a foreign key ('other') is present in the history and must not influence the result")
     return chk.finish(technique=TECH)
